@@ -10,6 +10,14 @@ pub enum IoKind {
     Interrupted,
     InvalidData,
     Other,
+    /// errors whose *text* is unusual (a virtual or network file system may put anything there):
+    /// several hundred bytes of multi-byte characters, at three alignments so that every byte
+    /// offset falls inside a character in one of them; an empty text; a text of several lines
+    LongTextA,
+    LongTextB,
+    LongTextC,
+    EmptyText,
+    MultiLineText,
 }
 
 /// ASCII characters and the look-alikes that editors and chat tools substitute for them
@@ -29,6 +37,7 @@ pub fn confusable_of(c: u8) -> Option<&'static str> {
 }
 
 pub const IO_KINDS: [IoKind; 5] = [IoKind::NotFound, IoKind::PermissionDenied, IoKind::Interrupted, IoKind::InvalidData, IoKind::Other];
+pub const IO_TEXT_KINDS: [IoKind; 5] = [IoKind::LongTextA, IoKind::LongTextB, IoKind::LongTextC, IoKind::EmptyText, IoKind::MultiLineText];
 
 impl IoKind {
     pub fn name(&self) -> &'static str {
@@ -38,10 +47,15 @@ impl IoKind {
             IoKind::Interrupted => "Interrupted",
             IoKind::InvalidData => "InvalidData",
             IoKind::Other => "Other",
+            IoKind::LongTextA => "LongTextA",
+            IoKind::LongTextB => "LongTextB",
+            IoKind::LongTextC => "LongTextC",
+            IoKind::EmptyText => "EmptyText",
+            IoKind::MultiLineText => "MultiLineText",
         }
     }
     pub fn parse(s: &str) -> Option<IoKind> {
-        IO_KINDS.iter().copied().find(|k| k.name() == s)
+        IO_KINDS.iter().chain(IO_TEXT_KINDS.iter()).copied().find(|k| k.name() == s)
     }
 }
 
